@@ -257,6 +257,49 @@ class PyList(Model):
     return SymSeq(ty, t)
 
 
+class WeakContainer(Model):
+  """A list / set / dict whose contents are not tracked at all: every query answers with a
+  fresh unconstrained value and every update is a no-op.  Sound over-approximation of a
+  container the loop contracts do not describe (used after NeedWeak)."""
+  def __init__(self, site):
+    self.site_weak = site
+    self.ghost = True
+
+  def _noop(self, ip, *a, **k):
+    return None
+
+  py_add = py_append = py_appendleft = py_discard = py_update = py_clear = py_extend = py_insert = _noop
+  py___setitem__ = _noop
+
+  def py_remove(self, ip, v):
+    if ip.ctx.choose(2, 'weak.remove') == 1:
+      raise PyRaise(ExcVal('KeyError', ()))
+
+  def py___delitem__(self, ip, k):
+    if ip.ctx.choose(2, 'weak.del') == 1:
+      raise PyRaise(ExcVal('KeyError', ()))
+
+  def py___contains__(self, ip, v):
+    return ip.ctx.fresh(z3.BoolSort(), 'weak.in')
+
+  def py___len__(self, ip):
+    n = ip.ctx.fresh(z3.IntSort(), 'weak.len')
+    ip.ctx.assume(n >= 0)
+    return n
+
+  def py___bool__(self, ip):
+    return ip.ctx.fresh(z3.BoolSort(), 'weak.bool')
+
+  def py___getitem__(self, ip, k):
+    raise EngineError("read of an element of an untracked container (site %r)" % (self.site_weak,))
+
+  def py_get(self, ip, k, default=None):
+    raise EngineError("read of an element of an untracked container (site %r)" % (self.site_weak,))
+
+  def as_symseq(self, ip):
+    raise EngineError("iteration over an untracked container (site %r)" % (self.site_weak,))
+
+
 class PySetLit(Model):
   """A set with a concrete list of (possibly symbolic, possibly equal) candidates."""
   def __init__(self, items):
